@@ -5,6 +5,8 @@ from mc import core, det, domains, sse
 PROPERTY = 'C08'
 ENGINE = 'E1 bounded-exhaustive enumeration of configuration dictionaries (single, pairwise%s departures over the full value domain, deletions, primitive names) x valid databases'
 LEVEL = 'model_checking'
+DIRECTED_ADDITIONS = 'KiB-sized blocks (B = 600, identifier size 128), the empty configuration as dict / OrderedDict / defaultdict'      # members added during the seeded-change campaign (DESIGN 7); counted under their own vacuity counters
+
 CHUNK = 120
 
 LEN = [8, 16, 20, 24, 32, 48, 0, -1, 2.5]
@@ -38,6 +40,12 @@ PROFILES = [[1], [2, 1], [3, 3, 1], [5], [1, 1, 1, 1]]
 
 
 def describe(tier):
+    d = _describe(tier)
+    d['rule'] = d['rule'] + ' Directed additions: ' + DIRECTED_ADDITIONS + '.'
+    return d
+
+
+def _describe(tier):
     return {
         'rule': 'case = (scheme, configuration dictionary, database profile); configuration dictionaries: the small valid base point, every '
                 'single-field and every pairwise departure over the full value domain of each field (length fields {8,16,20,24,32,48,0,-1,2.5}, '
